@@ -16,6 +16,7 @@ import (
 	"io"
 	"os"
 	"path/filepath"
+	"sort"
 	"strconv"
 	"strings"
 	"sync"
@@ -60,6 +61,7 @@ type c09Case struct {
 	Ops     []c09Op    `json:"ops,omitempty"`
 	NH      int        `json:"handles,omitempty"`
 	Reqs    []c09Req   `json:"reqs,omitempty"`
+	ZeroRows bool      `json:"zero_size_rows,omitempty"` // hand-made index with rows of size 0: outside index_describes, correspondence only
 	CLIOff  int        `json:"cli_offset,omitempty"`
 	CLILen  int        `json:"cli_length,omitempty"`
 	Got     string     `json:"impl,omitempty"`
@@ -267,6 +269,8 @@ func c09RunIpos(c *c09Case) (obs string, failAt int, cls, what string, hung bool
 					fail(i, "read/early-eof", fmt.Sprintf("Read(%d) at %d < L=%d returned EOF", o.Len, pos, L))
 				case pos < L && err == nil && int64(n) != want:
 					fail(i, "read/short-without-error", fmt.Sprintf("Read(%d) at %d returned %d bytes and no error, want %d", o.Len, pos, n, want))
+				case c.ZeroRows && err != nil && ec == "other":
+					// Chunk.Data() of an empty chunk: "no data in chunk" (observed, modelled as ENoData); the bytes were checked above
 				case pos < L && err != nil && f1 == f0:
 					fail(i, "read/error-with-healthy-store", fmt.Sprintf("Read(%d) at %d returned error %v although the store did not fail", o.Len, pos, err))
 				case pos < L && err != nil && ec != "missing" && ec != "fault":
@@ -441,6 +445,25 @@ func c09Blob(rng *vh.Rand) (blob []byte, sizes []int, max int, shape string) {
 		sizes = append(sizes, len(c))
 	}
 	return blob, sizes, max, shape
+}
+
+// c09ZeroRows inserts rows of size 0 (ID = digest of the empty string) into the index: never produced by a chunker,
+// but accepted by the index decoder.
+func c09ZeroRows(rng *vh.Rand, sizes []int) []int {
+	var out []int
+	if rng.Chance(1, 3) {
+		out = append(out, 0)
+	}
+	for _, s := range sizes {
+		out = append(out, s)
+		if rng.Chance(1, 4) {
+			out = append(out, 0)
+		}
+	}
+	if len(out) == len(sizes) {
+		out = append(out, 0)
+	}
+	return out
 }
 
 func c09Boundaries(sizes []int) []int64 {
@@ -824,6 +847,61 @@ func runC09(a vh.Args, o *vh.Oracle, r *vh.Result) error {
 				return nil
 			}
 			return err
+		}
+	}
+	// hand-made indexes with zero-size rows: model/implementation correspondence beyond the theorem's domain
+	for i := 0; i < nIpos/8; i++ {
+		c := mk("ipos")
+		if len(c.Sizes) == 0 {
+			continue
+		}
+		c.Sizes, c.ZeroRows, c.Shape = c09ZeroRows(rng, c.Sizes), true, "zero-size-rows"
+		c.Ops = c09GenOps(rng, c.Sizes, c.Max, 1+rng.Intn(30))
+		if rng.Bool() { // the store may or may not hold the empty chunk
+			for j, sz := range c.Sizes {
+				if sz == 0 {
+					c.Missing = append(c.Missing, j)
+				}
+			}
+		}
+		if err := c09CheckIpos(a, o, r, c); err != nil {
+			if err == errC09Hang {
+				r.Note("run aborted after a hang")
+				return nil
+			}
+			return err
+		}
+	}
+	// sort.Search itself against go_search, for arbitrary (also non-monotone) predicates
+	if o != nil {
+		for i := 0; i < nIpos/2; i++ {
+			n := rng.Intn(40)
+			bits := make([]byte, n)
+			th := rng.Intn(n + 1)
+			for j := range bits {
+				bits[j] = '0'
+				if j >= th || rng.Chance(1, 10) {
+					bits[j] = '1'
+				}
+				if rng.Chance(1, 15) {
+					bits[j] = '0'
+				}
+			}
+			want := sort.Search(n, func(k int) bool { return bits[k] == '1' })
+			bs := string(bits)
+			if bs == "" {
+				bs = "-"
+			}
+			ans, err := o.Call("c09.search", strconv.Itoa(n), bs)
+			if err != nil {
+				return err
+			}
+			r.Corr()
+			r.Count("search|"+bs, n > 1)
+			r.Dist("kind:sort.Search")
+			if ans != strconv.Itoa(want) {
+				r.Fail("corr", "corr:C09/sort.Search", fmt.Sprintf("go_search=%s sort.Search=%d on %s", ans, want, bs), map[string]interface{}{"n": n, "bits": bs})
+			}
 		}
 	}
 	for i := 0; i < nFuse; i++ {
